@@ -5,6 +5,7 @@
 package c16
 
 import (
+	"math"
 	"bytes"
 	"errors"
 	"fmt"
@@ -51,6 +52,7 @@ var Prop = &engine.Prop{
 		{Name: "server", Quick: 16, Thorough: 640, Fn: serverCase},
 		{Name: "tcp-flush", Quick: 24, Thorough: 960, Fn: tcpFlushCase},
 		{Name: "server-zero", Quick: 8, Thorough: 160, Fn: serverZeroCase},
+		{Name: "mgr-independence", Quick: 200, Thorough: 8000, Fn: mgrIndependenceCase},
 	},
 	Floors: map[string]int64{
 		"sessions":                       2000,
@@ -101,6 +103,9 @@ type fakeConn struct {
 	clk  *vclock
 	rdl  time.Time
 	wdl  time.Time
+	// how far ahead the last read / write deadline was when it was armed, and how often one was
+	rdlIn, wdlIn   time.Duration
+	rdlSet, wdlSet int
 
 	inbuf        []byte
 	peerClosed   bool
@@ -169,12 +174,13 @@ func (c *fakeConn) Write(p []byte) (int, error) {
 			}
 			return 0, timeoutErr{}
 		}
+		if !c.wdl.IsZero() && !c.clk.now().Before(c.wdl) {
+			// as on a real connection: once the armed deadline has passed nothing is written
+			return 0, timeoutErr{}
+		}
 		if c.peerReads {
 			c.received = append(c.received, p...)
 			return len(p), nil
-		}
-		if !c.wdl.IsZero() && !c.clk.now().Before(c.wdl) {
-			return 0, timeoutErr{}
 		}
 		c.blocked++
 		c.cond.Wait()
@@ -214,6 +220,7 @@ func (c *fakeConn) SetReadDeadline(t time.Time) error {
 	}
 	c.readTimeout = false // a new deadline is armed: an earlier expiry no longer applies
 	c.rdl = t
+	c.rdlIn, c.rdlSet = time.Until(t), c.rdlSet+1
 	c.cond.Broadcast()
 	c.mu.Unlock()
 	return nil
@@ -222,6 +229,7 @@ func (c *fakeConn) SetWriteDeadline(t time.Time) error {
 	c.mu.Lock()
 	c.writeTimeout = false
 	c.wdl = t
+	c.wdlIn, c.wdlSet = time.Until(t), c.wdlSet+1
 	c.cond.Broadcast()
 	c.mu.Unlock()
 	return nil
@@ -373,8 +381,26 @@ func alwaysTerminates(ev int) bool {
 func faultCase(k *engine.Case) {
 	r := k.R
 	h := newHandler()
-	mgr := stcp.NewSessionMgr(h, stcp.WithReadTimeout(1000*time.Hour), stcp.WithWriteTimeout(1000*time.Hour))
+	// timeouts: 1000 h, or "never" written as the largest duration (both far beyond anything the
+	// virtual clock is advanced by)
+	rto, wto := 1000*time.Hour, 1000*time.Hour
+	if r.Intn(3) == 0 {
+		rto, wto = time.Duration(math.MaxInt64), time.Duration(math.MaxInt64)
+		k.Count("managers_with_never_timeouts", 1)
+	}
+	mgr := stcp.NewSessionMgr(h, stcp.WithReadTimeout(rto), stcp.WithWriteTimeout(wto))
 	mgr.SetLogger(quietLogger)
+	if r.Intn(2) == 0 {
+		// another manager with options of its own is built in the same process (never used):
+		// managers are independent, the sessions of this case keep this case's timeouts - the
+		// one-hour advances of the virtual clock below stay far below them
+		other := stcp.NewSessionMgr(newHandler(), stcp.WithReadTimeout(30*time.Minute), stcp.WithWriteTimeout(20*time.Minute))
+		other.SetLogger(quietLogger)
+		if r.Intn(2) == 0 {
+			stcp.NewEchoMgr(&srvHandler{}, stcp.WithReadTimeout(10*time.Minute), stcp.WithWriteTimeout(10*time.Minute))
+		}
+		k.Count("cases_with_another_manager_built", 1)
+	}
 	clk := &vclock{}
 	h.mu.Lock()
 	h.mgr = mgr
@@ -530,6 +556,9 @@ func faultCase(k *engine.Case) {
 				pad := 0
 				if bigFrames {
 					pad = 40 + r.Intn(400)
+					if r.Intn(6) == 0 {
+						pad = 1000 + r.Intn(3000) // frames of several KiB
+					}
 				}
 				frames[i] = []byte(fmt.Sprintf("<s%d#%d%s>", x.id, frameNo, strings.Repeat(".", pad)))
 			}
@@ -1105,7 +1134,51 @@ func serverCase(k *engine.Case) {
 		clients = 0
 		k.Logf("mode: burst against the idle server")
 	}
+	// sessions that reach the manager by another way than this server's accept loop (a second
+	// listener, an upgraded connection handed over with Do): they count like any other
+	direct := 0
+	var directConns []net.Conn
+	defer func() {
+		for _, c := range directConns {
+			c.Close()
+		}
+	}()
+	wantDirect := 0
+	if !fromEmpty && m >= 2 && r.Intn(2) == 0 {
+		wantDirect = 1 + r.Intn(m-1)
+	}
 	for i := 0; i < clients; i++ {
+		if i == 1 && wantDirect > 0 {
+			for j := 0; j < wantDirect; j++ {
+				l2, lerr := net.Listen("tcp", "127.0.0.1:0")
+				if lerr != nil {
+					break
+				}
+				cc, derr := net.DialTimeout("tcp", l2.Addr().String(), 2*time.Second)
+				if derr != nil {
+					l2.Close()
+					break
+				}
+				sc, aerr := l2.Accept()
+				l2.Close()
+				if aerr != nil {
+					cc.Close()
+					break
+				}
+				directConns = append(directConns, cc)
+				h.mgr.Do(sc)
+				cc.SetReadDeadline(time.Now().Add(20 * time.Second))
+				var b [1]byte
+				if n, _ := cc.Read(b[:]); n != 1 || b[0] != 'A' {
+					k.Inconclusive("a session handed to the manager with Do was not greeted in time")
+					srv.Close()
+					return
+				}
+				direct++
+			}
+			k.Logf("%d session(s) handed to the manager directly with Do (count now %d)", direct, h.mgr.ConnCount())
+			k.Count("server_direct_sessions", int64(direct))
+		}
 		var c net.Conn
 		for {
 			c, err = net.DialTimeout("tcp", addr, 2*time.Second)
@@ -1146,7 +1219,7 @@ func serverCase(k *engine.Case) {
 						served++
 					}
 				}
-				if served == m && m > 0 {
+				if served+direct == m && m > 0 {
 					for _, y := range cls {
 						if y.accepted {
 							y.c.Close() // make room for one more session
@@ -1200,20 +1273,20 @@ func serverCase(k *engine.Case) {
 	if int(h.max.Load()) > m || int(h.mgr.ConnCount()) > m {
 		k.Fail("max-conn-exceeded", "ConnCount reached %d (now %d) with WithMaxConn(%d)", h.max.Load(), h.mgr.ConnCount(), m)
 	}
-	if acc > m {
-		k.Fail("max-conn-exceeded", "%d connections were served simultaneously with WithMaxConn(%d)", acc, m)
+	if acc+direct > m {
+		k.Fail("max-conn-exceeded", "%d connections accepted by the server plus %d handed to the manager directly were served simultaneously with WithMaxConn(%d)", acc, direct, m)
 	}
-	if !fromEmpty && acc == m && cut != clients-m {
-		k.Fail("surplus-not-closed", "%d of %d surplus connections were not closed on accept", clients-m-cut, clients-m)
+	if !fromEmpty && acc+direct == m && cut != clients-(m-direct) {
+		k.Fail("surplus-not-closed", "%d of %d surplus connections were not closed on accept", clients-(m-direct)-cut, clients-(m-direct))
 	}
 	// burst phase: while the server is at its limit, many clients dial at the same moment; the
 	// accept loop must keep closing the surplus (the count is taken synchronously on accept)
-	if acc == m || fromEmpty {
+	if acc+direct == m || fromEmpty {
 		burst := 4*m + 8
 		if fromEmpty {
 			burst = 8*m + 24
 		}
-		room := int32(m - acc) // sessions the server may still serve
+		room := int32(m - acc - direct) // sessions the server may still serve
 		var bwg sync.WaitGroup
 		start := make(chan struct{})
 		var bAcc, bCut, bErr atomic.Int32
@@ -1262,6 +1335,9 @@ func serverCase(k *engine.Case) {
 	// clients leave; the count must return to zero
 	for _, x := range cls {
 		x.c.Close()
+	}
+	for _, c := range directConns {
+		c.Close()
 	}
 	end := time.Now().Add(30 * time.Second)
 	for h.mgr.ConnCount() != 0 {
